@@ -36,7 +36,10 @@ CHECK = {'level': 'exploration',
                  'contract (deleting a missing / already deleted key fails with key-not-found); signatures name the store',
                  'passwords that differ as strings but expand to the same 72-byte bcrypt key (p vs p+NUL+p, or equal first 72 bytes) are judged as '
                  'different passwords, under their own signature',
-                 'JWT / OIDC authentication and guest access are not part of this check']}
+                 'JWT / OIDC authentication and guest access are not part of this check',
+                 'self-test aid: with VERIF_C12_KNOWN=notes in the environment the signatures observed on the unchanged tree (disabled user keeps '
+                 'session authentication, logout undone by a concurrent refresh, rosmar delete-of-deleted-key, bcrypt key equivalence) are counted as '
+                 'notes instead of violations so that a mutant run is decided by what the mutant adds; the default reports everything']}
 
 META = {'technique': 'runtime monitoring: credential reference model (CredModel) over seeded histories of the real Authenticator and of the public REST API; '
               'differential of the verified-password fast path against bcrypt on the stored hash; consume-once oracle for one-time sessions under real '
